@@ -103,6 +103,10 @@ func Valid(raw []byte, origin string, k uint64, others []uint64) bool {
 //
 //wsym:replace github.com/transparency-dev/formats/log.ParseCheckpoint
 func ParseCheckpoint(chkpt []byte, origin string, logSigV note.Verifier, otherSigVs ...note.Verifier) (*log.Checkpoint, []byte, *note.Note, error) {
+	if Param("pcp_real", 0) == 1 {
+		// H-PCP: run the pinned dependency's real code (over the note.Open contract)
+		return log.ParseCheckpoint(chkpt, origin, logSigV, otherSigVs...)
+	}
 	k := keyOf(logSigV)
 	var others []uint64
 	for _, o := range otherSigVs {
@@ -205,10 +209,32 @@ func VerifierList(list ...note.Verifier) note.Verifiers { return &VList{L: list}
 //wsym:replace golang.org/x/mod/sumdb/note.Open
 func NoteOpen(msg []byte, known note.Verifiers) (*note.Note, error) {
 	Log(Ev{K: "note.Open", B: [][]byte{msg}})
-	if !UFBool("openOK", msg) {
+	n := &note.Note{Text: string(NoteText(msg))}
+	vl, isList := known.(*VList)
+	if !isList {
+		if !UFBool("openOK", msg) {
+			return nil, errOpen
+		}
+		noteRaw[n] = msg
+		return n, nil
+	}
+	// x/mod note.Open: malformed notes are refused; a signature line by a known key that does not
+	// verify is an error; verified lines are collected in note order; none verified is an error.
+	if !WellFormed(msg) {
 		return nil, errOpen
 	}
-	n := &note.Note{Text: string(NoteText(msg))}
+	for _, v := range vl.L {
+		k := keyOf(v)
+		if BadSig(msg, k) {
+			return nil, errOpen
+		}
+		if HasSig(msg, k) {
+			n.Sigs = append(n.Sigs, note.Signature{Name: v.Name(), Hash: v.KeyHash(), Base64: UFStr("sigB64", msg, k)})
+		}
+	}
+	if len(n.Sigs) == 0 {
+		return nil, errOpen
+	}
 	noteRaw[n] = msg
 	return n, nil
 }
